@@ -76,7 +76,7 @@ def behaviour(rnd, depth):
         elif r < 0.80 and auctions:
             i = rnd.randrange(len(auctions))
             typ, start, end, pd, sd, pr, nb = auctions[i]
-            if nb >= 12:
+            if nb >= int(os.environ.get("DRIVE_MAXBIDS", "12")):
                 continue
             u = rnd.choice(users)
             if typ == "F":
